@@ -1155,6 +1155,10 @@ func Run(c *hx.Ctx) {
 	for round := 0; round < c.N(3, 10); round++ {
 		runConcurrent(c, round)
 	}
+	// two concurrent mutators of one router under a deterministic scheduler, every schedule (rlock.go)
+	runRlockAll(c)
+	// routers loaded from a directory / from static JSON / built by code, dump -> reload through the real loader (mode.go)
+	runModeAll(c)
 	g := &gen{c: c}
 	n := c.N(5000, 40000)
 	for i := 0; i < n; i++ {
